@@ -166,10 +166,15 @@ def sweep(tier="quick", seed=0, unsupported=()):
     f1, c1 = dist_checks(tier)
     f2, c2 = isi_checks(tier)
     f3, c3 = vp_checks(tier)
-    for f in f1 + f2 + f3:
+    from . import c02 as _c02
+
+    f4, c4 = _c02.pair_cases()
+    f4 = [dict(f, what=f["what"].replace("C02/", "C20/")) for f in f4]
+    for f in f1 + f2 + f3 + f4:
         if not any(x["what"] == f["what"] for x in failures):
             failures.append(f)
     return {"standins": [
+        {"function": "shipped extrapolation/interpolation pairs (linear ones also with adjust): round trip and documented endpoints", "domain": "see native/c02.py pair_cases", "cases": c4, "proved": False, "label": "bounded"},
         {"function": "Poisson/Normal/LogNormal: sum/integral of density = 1 and = cdf, moments, logcdf, params_mv round trip (quadrature)", "domain": "rate in {0.1,1,5,30}; loc in {-1,0,2} x scale in {0.3,1,2}; 20001-point trapezoid", "cases": c1, "proved": False, "label": "bounded"},
         {"function": "isi re-integrates to spike times", "domain": "rasters of 3 trains x T<=6 steps, both layouts, dt in {1,0.5}, incl. empty and full trains", "cases": c2, "proved": False, "label": "bounded"},
         {"function": "victor_purpura_pair_dist: limits, reference DP, symmetry, identity, triangle (sampled)", "domain": "spike-time vectors of length<=3 on a 4-point grid, costs {0,0.5,2,inf}, float and tensor cost", "cases": c3, "proved": False, "label": "bounded"}],
@@ -177,6 +182,10 @@ def sweep(tier="quick", seed=0, unsupported=()):
 
 
 def replay(contract, label, model, note=""):
+    if contract.startswith("pair["):
+        from . import c02
+
+        return c02.replay_pair(contract, model)
     r = sweep("quick")
     if r["failures"]:
         return {"reproduced": True, "failure": r["failures"][0], "concrete": r["failures"][0]["input"]}
